@@ -260,13 +260,10 @@ def solver_command_cases():
 
         def harness(interp, has_cmd=has_cmd):
             ctx = interp.ctx
-            s_src = SymInt(z3.Int("solver_source"))
-            c_src = SymInt(z3.Int("solver_command_source"))
-            ctx.assume(z3.And(s_src.e >= 1, s_src.e <= MAXSRC))
-            if has_cmd:
-                ctx.assume(z3.And(c_src.e >= 1, c_src.e <= MAXSRC))
-            else:
-                ctx.assume(c_src.e == 0)
+            # the sources are real ConfigSource members (the code also renders `source.name` in a warning): every pair
+            real = [s for s in ConfigSource if s != ConfigSource.void]
+            s_src = real[ctx.choose(len(real), "solver source")]
+            c_src = real[ctx.choose(len(real), "solver-command source")] if has_cmd else ConfigSource.void
             resolved = ["resolved-from---solver"]
 
             def vws(i, args, kwargs):
@@ -285,8 +282,8 @@ def solver_command_cases():
             uses_cmd = r == ["my-solver", "--flag"]
             uses_solver = r is resolved
             ctx.oblige("result-is-one-of-the-two", z3.BoolVal(uses_cmd or uses_solver))
-            want_cmd = z3.And(z3.BoolVal(has_cmd), c_src.e >= s_src.e)
-            ctx.oblige("solver-command-wins-iff-at-least-as-high", want_cmd if uses_cmd else z3.Not(want_cmd))
+            want_cmd = z3.BoolVal(bool(has_cmd and int(c_src) >= int(s_src)))
+            ctx.oblige("solver-command-wins-iff-at-least-as-high", want_cmd if uses_cmd else z3.Not(want_cmd), info={"solver": s_src.name, "command": c_src.name})
 
         out.append(Case(f"{PROP}/config.Config.resolved_solver_command", "command set" if has_cmd else "command unset", harness, sources=("halmos.config:Config.resolved_solver_command",)))
     return out
